@@ -26,13 +26,6 @@ def pinStable (U : Universe) (S : State) (p : Pin) : Bool :=
 dependency) after it is pinned" -/
 def noLateExtras (U : Universe) (S : State) : Bool := S.mapping.all (pinStable U S)
 
-/-- the root itself: when the root package has a criterion (a cycle through the root)
-it must not carry extras that show further root dependencies -/
-def rootStable (U : Universe) (S : State) (root : Ver) : Bool :=
-  match getDependencies U root (extrasOfPkg S root.pkg), getDependencies U root [] with
-  | .ok now, .ok thenDeps => now.all (fun d => thenDeps.contains d)
-  | _, _ => false
-
 /-- the node set is closed under "pinned dependency of a node": what an exact
 `hasRouteToRoot` would guarantee -/
 def routeClosed (S : State) (ids : List (Nat × Ver)) : Bool :=
